@@ -4,6 +4,8 @@ package sched
 type Explorer struct {
 	Bound   int // maximum number of preemptions (-1: unbounded)
 	MaxExec int // cap on executions (0: none)
+	// Only, if non-nil, makes Explore run exactly this schedule (a recorded choice list) and nothing else.
+	Only []int
 	// Exec runs one execution from a choice prefix (expectN = number of enabled threads at each prefix point).
 	Exec func(prefix, expectN []int) *Result
 	// Visit is called with every completed execution; returning false stops the search.
@@ -33,6 +35,17 @@ type frame struct {
 // Explore runs the search.
 func (e *Explorer) Explore() *Stats {
 	st := &Stats{PerBound: map[int]int64{}, Exhaustive: true}
+	if e.Only != nil {
+		st.Exhaustive = false
+		r := e.Exec(e.Only, nil)
+		for tries := 0; r.WrongBranch && tries < 400; tries++ {
+			st.Retries++
+			r = e.Exec(e.Only, nil)
+		}
+		st.Executions, st.Transitions, st.MaxPoints = 1, int64(len(r.Points)), len(r.Points)
+		e.Visit(r)
+		return st
+	}
 	stack := []frame{{}}
 	for len(stack) > 0 {
 		if e.MaxExec > 0 && st.Executions >= int64(e.MaxExec) {
